@@ -6,6 +6,7 @@ import Just.Model.EnvExport
 import Just.Model.Workdir
 import Just.Model.Search
 import Just.Model.Dotenv
+import Just.Model.Unstable
 open Lean
 
 namespace Just.Run
@@ -61,3 +62,55 @@ namespace Just.Dotenv
 deriving instance FromJson, ToJson for Cfg
 deriving instance ToJson for Res
 end Just.Dotenv
+
+namespace Just
+deriving instance FromJson, ToJson for CondOp
+
+mutual
+partial def exprFromJson (j : Json) : Except String Expr := do
+  let tag ← j.getObjValAs? String "t"
+  let sub (k : String) : Except String Expr := do exprFromJson (← j.getObjVal? k)
+  match tag with
+  | "str" => return .str (← j.getObjValAs? String "v")
+  | "var" => return .var (← j.getObjValAs? String "v")
+  | "backtick" => return .backtick (← j.getObjValAs? String "v")
+  | "call" =>
+    let fn ← j.getObjValAs? String "fn"
+    let args ← exprsFromJson (← j.getObjVal? "args")
+    return .call fn args
+  | "concat" => return .concat (← sub "l") (← sub "r")
+  | "joinL" => return .joinL (← sub "l") (← sub "r")
+  | "joinR" => return .joinR (← sub "r")
+  | "and" => return .and (← sub "l") (← sub "r")
+  | "or" => return .or (← sub "l") (← sub "r")
+  | "cond" =>
+    let op : CondOp ← fromJson? (← j.getObjVal? "op")
+    let a ← sub "lhs"
+    let b ← sub "rhs"
+    let t ← sub "thn"
+    let e ← sub "els"
+    return .cond a op b t e
+  | "assert" =>
+    let op : CondOp ← fromJson? (← j.getObjVal? "op")
+    let a ← sub "lhs"
+    let b ← sub "rhs"
+    let m ← sub "msg"
+    return .assert a op b m
+  | "group" => return .group (← sub "e")
+  | t => throw s!"unknown expr tag {t}"
+partial def exprsFromJson (j : Json) : Except String Exprs := do
+  let arr ← j.getArr?
+  let es ← arr.toList.mapM exprFromJson
+  return Exprs.ofList es
+end
+
+partial def unstableModuleFromJson (j : Json) : Except String Unstable.Module := do
+  let exprsJ ← (← j.getObjVal? "exprs").getArr?
+  let exprs ← exprsJ.toList.mapM exprFromJson
+  let subsJ ← (← j.getObjVal? "subs").getArr?
+  let subs ← subsJ.toList.mapM unstableModuleFromJson
+  let sr ← j.getObjValAs? Bool "scriptRecipe"
+  let si ← j.getObjValAs? Bool "scriptInterpreter"
+  let su ← j.getObjValAs? Bool "setUnstable"
+  return .mk exprs sr si su subs
+end Just
